@@ -50,6 +50,18 @@ impl Prog {
         while n > 0 {
             let choice = if mix == 0 { 0 } else { rng.below(9) };
             match choice {
+                // mix 100: the reduced core (the program begins with `.device ATtiny20`), whose lds/sts take one word
+                1 | 2 if mix == 100 => {
+                    let (r, k) = (16 + rng.below(16) as i64, 0x40 + rng.below(0x80) as i64);
+                    if choice == 1 {
+                        let w = isa::encode(isa::form("sts:rc"), &[k, r]);
+                        self.emit(&format!("\tsts 0x{:x}, r{}", k, r), &isa::words_to_bytes(&w));
+                    } else {
+                        let w = isa::encode(isa::form("lds:rc"), &[r, k]);
+                        self.emit(&format!("\tlds r{}, {}", r, k), &isa::words_to_bytes(&w));
+                    }
+                    n -= 1;
+                }
                 1 if n >= 2 => {
                     let k = rng.below(4194304) as i64;
                     let w = isa::encode(isa::form("jmp"), &[k]);
@@ -110,7 +122,7 @@ fn build_case(c: &Case, seed: u64) -> Built {
     let forms = isa::forms();
     let form = &forms[c.form];
     let mut rng = Rng::for_case(seed, 0xC03 ^ c.mix, (c.form as u64) << 32 ^ (c.d as u64 & 0xffff_ffff) ^ ((c.start as u64) << 48));
-    let mut p = Prog { src: String::from("; C03 case\n"), image: vec![], addr: 0 };
+    let mut p = Prog { src: String::from(if c.mix == 100 { "; C03 case\n.device ATtiny20\n" } else { "; C03 case\n" }), image: vec![], addr: 0 };
     if c.start > 0 {
         p.src.push_str(&format!(".org {}\n", c.start));
         p.image.extend(std::iter::repeat(0u8).take(c.start as usize * 2));
@@ -305,7 +317,11 @@ fn cases(ctx: &Ctx) -> Vec<Case> {
         let flags: Vec<i64> = if form.ops.len() == 2 { (0..8).collect() } else { vec![0] };
         for flag in &flags {
             for d in &ds {
-                for (mi, mix) in mixes.iter().enumerate() {
+                for (mi, mix) in mixes.iter().chain(std::iter::once(&100u64)).enumerate() {
+                    // (the reduced core has 1 Ki words of flash: short distances from the start of the flash only)
+                    if *mix == 100 && bits == 12 && d.abs() > 8 {
+                        continue;
+                    }
                     // rotate styles/starts deterministically so every (d, style) and (d, start) pair occurs
                     let n = (*d + 4000) as usize + mi + *flag as usize;
                     let style_set: Vec<Style> = if thorough || bits == 12 { styles.to_vec() } else { vec![styles[n % 4], styles[(n + 1) % 4]] };
@@ -313,6 +329,7 @@ fn cases(ctx: &Ctx) -> Vec<Case> {
                         let start = if bits == 12 && !thorough { starts[(n + si) % starts.len()] } else { starts[(n + si + mi) % starts.len()] };
                         // big start addresses only on a thin slice (they cost 140 KB per build)
                         let start = if start == 70000 && !(d.abs() >= 60 && d.abs() <= 66 || d.abs() >= 2040 && d.abs() <= 2050) { 0 } else { start };
+                        let start = if *mix == 100 { 0 } else { start };
                         v.push(Case { form: fi, flag: *flag, d: *d, start, style: *style, mix: *mix });
                     }
                 }
